@@ -842,7 +842,7 @@ def rule_filter(ctx):
     # inserted iff max_count >= threshold
     res = []
     for e in ins:
-        thr = e.env.get("threshold")
+        thr = _threshold_on_path(w, e)
         v = e.value
         okk = isinstance(thr, Num) and isinstance(v, Num) and bool(w.P.prove_le0(thr.lin - v.lin, e.facts))
         res.append((okk, "inserted only when count >= threshold" if okk else "a candidate below the threshold can be inserted", fact_strs(e)))
@@ -857,28 +857,89 @@ def rule_filter(ctx):
         inserted = any(x in ins for x in evs)
         if inserted:
             continue
-        thr = le.env.get("threshold")
+        thr = _threshold_on_path(w, le)
         mc = calls[-1].result
         okk = isinstance(thr, Num) and isinstance(mc, Num) and bool(w.P.prove_le0(mc.lin - thr.lin + 1, le.facts))
         res.append((okk, "omitted only when count < threshold" if okk else "a key with count >= threshold can be omitted", fact_strs(le)))
     agg(ctx, "filter", gcs, ins[0].node if ins else gcs.node, "else: omit", "a key is omitted only when its count is below the threshold", res)
-    # default threshold identical in query and generate_candidate_set: uint32(self.phi * self.n_added())
-    forms = []
+    # default threshold identical in query and generate_candidate_set: uint32(self.phi * self.n_added()) on every path that decided
+    # `threshold is None`; the caller's value (as uint32) otherwise
     for meth in (q, gcs):
-        for n in walk_no_nested(meth.node):
-            if isinstance(n, ast.If) and isinstance(n.test, ast.Compare) and isinstance(n.test.left, ast.Name) and n.test.left.id == "threshold" \
-                    and isinstance(n.test.ops[0], (ast.Is, ast.IsNot)):
-                none_branch = n.body if isinstance(n.test.ops[0], ast.Is) else n.orelse
-                for st_ in none_branch:
-                    for s in ast.walk(st_):
-                        if isinstance(s, ast.Assign) and isinstance(s.targets[0], ast.Name) and s.targets[0].id == "threshold":
-                            forms.append((meth, s, _default_threshold_ok(s.value, cls)))
-    for meth, s, okk in forms:
-        ctx.ob("filter", meth, s, "threshold = %s" % unparse(s.value), "default threshold is floor(phi * n_added()) as uint32", okk,
-               "" if okk else "default threshold is not uint32(self.phi * self.n_added())")
-    if len(forms) < 2:
-        ctx.ob("filter", q, q.node, "default threshold", "query and generate_candidate_set both compute the default threshold", None,
-               "found %d default-threshold assignments" % len(forms))
+        wm = F.walk(meth)
+        tp = "threshold" if "threshold" in meth.params else None
+        if tp is None:
+            ctx.ob("filter", meth, meth.node, "%s(threshold=...)" % meth.name, "the method takes an optional threshold", None)
+            continue
+        if meth is gcs:
+            uses = [(e, e.value) for e in wm.events if e.kind == "attrstore" and e.target == "self.threshold_sort"]
+            what = "self.threshold_sort = threshold"
+        else:
+            uses = [(e, e.args[0] if e.args else None) for e in wm.events if e.kind == "call" and e.name == "self.generate_candidate_set"]
+            what = "self.generate_candidate_set(threshold)"
+        res = []
+        for e, v in uses:
+            side = _none_side(e, tp)
+            if side is None:
+                res.append((None, "the path does not decide `threshold is None`"))
+            elif side:
+                okk = _is_default_threshold(wm, v)
+                res.append((okk, "default threshold is uint32(self.phi * self.n_added())" if okk else
+                            "default threshold is not uint32(self.phi * self.n_added())", fact_strs(e)))
+            else:
+                okk = isinstance(v, Num) and (v.lin == Lin.term(("param", tp)) or _is_cast_of_param(wm, v, tp))
+                res.append((okk, "the caller's threshold is used" if okk else "an explicit threshold is not passed on unchanged", fact_strs(e)))
+        agg(ctx, "filter", meth, uses[0][0].node if uses else meth.node, "%s: %s" % (meth.name, what),
+            "threshold defaults to floor(phi * n_added()) as uint32, identically in query and generate_candidate_set",
+            res or [(None, "no use of the threshold found", [])])
+
+
+def _threshold_on_path(w, ev):
+    """The threshold this run of generate_candidate_set works with: what it recorded in self.threshold_sort on this path."""
+    st = [x for x in on_path(w.events, ev) if x.kind == "attrstore" and x.target == "self.threshold_sort"]
+    return st[-1].value if st else None
+
+
+def _none_side(ev, pname):
+    """True / False: the path of `ev` decided `<pname> is None` that way; None: undecided."""
+    for (_, _, cc) in ev.path:
+        for c in conjuncts(cc):
+            pol = True
+            while c[0] == "not":
+                c, pol = c[1], not pol
+            if c[0] == "atom" and isinstance(c[1], tuple) and c[1][0] == "cmp" and c[1][1] in ("is", "eq") \
+                    and ("'%s'" % pname) in str(c[1][2]) and "None" in str(c[1][3]):
+                return pol
+            if c[0] == "atom" and isinstance(c[1], tuple) and c[1][0] == "cmp" and c[1][1] in ("isnot", "ne") \
+                    and ("'%s'" % pname) in str(c[1][2]) and "None" in str(c[1][3]):
+                return not pol
+    return None
+
+
+def _is_default_threshold(w, v):
+    if not isinstance(v, Num):
+        return False
+    t = v.lin.single_term()
+    if t is None or t[0] != "trunc" or "uint32" not in str(t[1]):
+        return False
+    phi = Lin.term(("attr", "self", "phi")).key()
+    nad = Lin.term(("mcall", "self", "n_added")).key()
+    for c in w.events:
+        if c.kind == "cast" and c.fromfloat and isinstance(c.result, Num) and c.result.lin == v.lin and isinstance(c.arg, Num):
+            a = c.arg.lin.single_term()
+            if a is not None and a[0] == "op" and a[1] == "Mult" and {a[2], a[3]} == {phi, nad} and c.arg.lin == Lin.term(a):
+                return True
+            # through int()/floor of the product
+            if a is not None and a[0] in ("trunc", "floor"):
+                continue
+    return False
+
+
+def _is_cast_of_param(w, v, pname):
+    for c in w.events:
+        if c.kind == "cast" and isinstance(c.result, Num) and c.result.lin == v.lin and isinstance(c.arg, Num) \
+                and c.arg.lin == Lin.term(("param", pname)):
+            return True
+    return False
 
 
 def _default_threshold_ok(node, cls=None):
